@@ -21,10 +21,10 @@ import (
 func init() {
 	register(&Prop{
 		ID: "C15", Level: "fault_enumeration",
-		Rule: "one case = a router with CustomRecoveryWithLogHandler(capturing handler, DefaultHandleRecovery) over all handler kinds, generated routes, request headers carrying unique secret tokens under credential-bearing names in canonical, lower-case and mixed capitalisation (drawn; some with two values or under two capitalisations at once; values of 2, 3 or 12+ bytes) next to ordinary headers, a drawn request-target form (origin-form, absolute-form, no host), and a generated Updates/View program; for that configuration ALL combinations are enumerated of panic value (string, error, wrapped error, nil, custom type, http.ErrAbortHandler bare and wrapped, net.OpError with broken pipe / connection reset / other errno, directly or one wrapping layer down) x response progress at the time of the panic (nothing, header only, partial body, after a failed write) x panic site (route handler, route-specific middleware, route handler reached through an ignored trailing slash, a second fox router without Recovery mounted in the route handler, no-route, no-method and options handlers), a panic after every prefix of the Updates/View program run inside a handler, and a panic raised by a middleware constructor while Router.Handle/Update build a route inside a handler (user code running under the writer lock). Oracle: ServeHTTP returns normally (ErrAbortHandler re-raised as the identical value); the simulated connection shows 500 iff nothing had been written and the value is not a broken-connection error, nothing at all for broken connections, an untouched partial response otherwise; exactly one diagnostic record naming route (or scope), parameters and request line and containing none of the secret values; afterwards the routes are unchanged, a follow-up request is served and a write issued under the scheduler completes (writer lock released, else deadlock). Non-trivial: every run (all combinations are executed); distinct = hash of (configuration, header capitalisation, program).",
+		Rule: "one case = a router with CustomRecoveryWithLogHandler(capturing handler, DefaultHandleRecovery) over all handler kinds, generated routes, request headers carrying unique secret tokens under credential-bearing names in canonical, lower-case and mixed capitalisation (drawn; some with two values or under two capitalisations at once; values of 2, 3 or 12+ bytes) next to ordinary headers, a drawn request-target form (origin-form, absolute-form, no host), and a generated Updates/View program; for that configuration ALL combinations are enumerated of panic value (string, error, wrapped error, nil, custom type, http.ErrAbortHandler bare and wrapped, net.OpError with broken pipe / connection reset / other errno, directly or one wrapping layer down) x response progress at the time of the panic (nothing, header only, partial body, after a failed write) x panic site (route handler, route-specific middleware, route handler reached through an ignored trailing slash, a second fox router without Recovery mounted in the route handler, no-route, no-method and options handlers), a panic after every prefix of the Updates/View program run inside a handler, and a panic raised by a middleware constructor while Router.Handle/Update build a route inside a handler (user code running under the writer lock). Oracle: ServeHTTP returns normally (ErrAbortHandler re-raised as the identical value); the simulated connection shows 500 iff nothing had been written and the value is not a broken-connection error, nothing at all for broken connections, an untouched partial response otherwise; exactly one diagnostic record naming route (or scope), parameters and request line and containing none of the secret values; afterwards the routes are unchanged, a follow-up request is served and a write issued under the scheduler completes (writer lock released, else deadlock). One run in four repeats the route-handler site through CustomRecovery's built-in log handler on a route whose wildcards are named like log attributes (latency, status, error, level, time, msg, ...), reading the record back from standard error. Non-trivial: every run (all combinations are executed); distinct = hash of (configuration, header capitalisation, program).",
 		Run:  runC15, Quick: 4000, Thorough: 480000,
-		Real: []string{"Recovery middleware (recovery.go)", "Router.Updates/View abort paths", "recorder ResponseWriter", "ServeHTTP dispatch"},
-		Stub: []string{"slog sink: capturing handler", "net/http connection: simulated connection", "handlers and middleware that panic on script"},
+		Real: []string{"Recovery middleware (recovery.go)", "Router.Updates/View abort paths", "recorder ResponseWriter", "ServeHTTP dispatch", "built-in log handler (internal/slogpretty) in one run of four: its output goes to file descriptor 2, pointed at a private scratch file for the duration of the call"},
+		Stub: []string{"slog sink: capturing handler (built-in handler: see real)", "net/http connection: simulated connection", "handlers and middleware that panic on script"},
 	})
 }
 
@@ -443,6 +443,92 @@ func runC15(src sim.Source, o Opts) *Result {
 		}
 		if !followUp("after the panics in " + st.Name) {
 			return res
+		}
+	}
+
+	// one run in four: the same through fox's built-in log handler (CustomRecovery), which writes to the process'
+	// standard error - captured through a private scratch file. The route's wildcards are named like the attributes
+	// log handlers treat specially.
+	if src.Intn("builtinloghandler", 4) == 3 {
+		res.inc("runs_with_builtin_log_handler")
+		rb, err := fox.New(fox.WithMiddleware(fox.CustomRecovery(fox.DefaultHandleRecovery)))
+		if err != nil {
+			res.Trouble = "built-in handler router: " + err.Error()
+			return res
+		}
+		names := []string{"latency", "status", "error", "level", "time", "msg", "route", "params", "location", "method", "host", "path", "stack", "source"}
+		for i := len(names) - 1; i > 0; i-- {
+			j := src.Intn("attrnames", i+1)
+			names[i], names[j] = names[j], names[i]
+		}
+		pat := fmt.Sprintf("/bl/{%s}/{%s}/{%s}/*{%s}", names[0], names[1], names[2], names[3])
+		bpath := "/bl/250ms/503/boom/x/y"
+		wantParams := []string{names[0] + "=250ms", names[1] + "=503", names[2] + "=boom", names[3] + "=x/y"}
+		var script func(c fox.Context)
+		if _, err := rb.Handle("GET", pat, func(c fox.Context) { script(c) }); err != nil {
+			res.Trouble = "built-in handler router: " + err.Error()
+			return res
+		}
+		for _, pv := range panicValues() {
+			if pv.Abort || pv.Broken {
+				continue
+			}
+			for _, pg := range []string{"nothing", "partial"} {
+				res.Checks++
+				conn := world.NewConn()
+				eventsAtPanic := -1
+				script = func(c fox.Context) {
+					if pg == "partial" {
+						c.Writer().WriteHeader(202)
+						_, _ = c.Writer().Write([]byte("partial"))
+					}
+					eventsAtPanic = len(conn.Events)
+					panic(pv.V)
+				}
+				var escaped any
+				out, cerr := world.CaptureStderr(func() {
+					defer func() { escaped = recover() }()
+					rb.ServeHTTP(conn, mkReq("GET", bpath, nil))
+				})
+				if cerr != nil {
+					res.Trouble = "capturing standard error: " + cerr.Error()
+					return res
+				}
+				where := fmt.Sprintf("built-in log handler, route %s: panic(%s) with progress %q", pat, pv.Name, pg)
+				text := world.StripANSI(out)
+				switch {
+				case escaped != nil:
+					res.fail("C15/panic-escaped", "%s: the panic escaped ServeHTTP: %v", where, escaped)
+				case eventsAtPanic < 0:
+					res.Trouble = where + ": the panic site was not reached"
+				case pg == "nothing" && (conn.Explicit != 500 || len(conn.Body) == 0):
+					res.fail("C15/no-500", "%s: nothing had been written, the client must get a 500 response; the connection saw %v", where, conn.Events)
+				case pg == "partial" && len(conn.Events) != eventsAtPanic:
+					res.fail("C15/response-touched", "%s: the response must be left untouched, but the connection saw %v after the panic", where, conn.Events[eventsAtPanic:])
+				case strings.Count(text, "Recovered from PANIC") != 1:
+					res.fail("C15/log-record", "%s: %d diagnostic records on standard error, expected 1: %q", where, strings.Count(text, "Recovered from PANIC"), text)
+				case !strings.Contains(text, "route="+pat):
+					res.fail("C15/log-record", "%s: the record does not name the route: %q", where, text)
+				case !strings.Contains(text, fmt.Sprintf("GET %s?q=1 HTTP/1.1", bpath)) && reqForm != "absolute", reqForm == "absolute" && !strings.Contains(text, fmt.Sprintf("GET http://sim.invalid%s?q=1 HTTP/1.1", bpath)):
+					res.fail("C15/log-record", "%s: the record does not name the request line: %q", where, text)
+				default:
+					for _, wp := range wantParams {
+						if !strings.Contains(text, wp) {
+							res.fail("C15/log-record", "%s: the record lacks parameter %s: %q", where, wp, text)
+							break
+						}
+					}
+					for _, h := range secrets {
+						if strings.Contains(text, h.Val) {
+							res.fail("C15/secret-logged", "%s: the record on standard error contains the value of header %q", where, h.Key)
+							break
+						}
+					}
+				}
+				if res.failed() || res.Trouble != "" {
+					return res
+				}
+			}
 		}
 	}
 
